@@ -73,6 +73,15 @@ def make_world(rng):
     d_in = rng.choice(["", "", "inputs/sub dir/", "d\u00e9p\u00f4t/", "~/", "$HOME/in/", "very/" * 45 + "deep/", "a=b,c/"])
     d_rules = rng.choice(["", "my rules/", "r/u/l/", "~/rules/", "$HOME/", "@rules/"])
     d_mac = rng.choice(["", "", "mac ros/", "~/", "@m/"])
+    # (a side generator: the worlds that do not get one of these names stay what they were)
+    rng_n = random.Random(int(util.digest(list(rng.getstate()[1][:16]))[:16], 16))
+    r_n = rng_n.random()
+    if r_n < 0.06:
+        d_mac = "m,x/"  # a comma in the path of every macro library
+    elif r_n < 0.12:
+        d_in = "de\u0301po\u0302t/"  # decomposed Unicode (as unpacked from an archive made on macOS): not the NFC spelling
+    elif r_n < 0.16:
+        d_rules = "re\u0300gles \u212b/"  # decomposed + a character whose canonical form is another code point
     listings = []
     for i in range(rng.randrange(2, 4)):
         text, _ins = gen.gen_listing(rng, n=rng.randrange(10, 40), branch_targets=targets)
